@@ -146,6 +146,8 @@ def saveload_event(r, oid, binary):
                 st = (Binding(kind, r.b.labels, r.rng).state(h) if kind else
                       {"nodes": [], "edges": [], "nmd": [], "hmd": {}, "wtd": False, "err": ""})
                 ev["loaded"] = {"ok": True, "cls": type(h).__name__, "res": st}
+                if kind == r.kind:
+                    ev["_obj"] = h
         return ev
     finally:
         shutil.rmtree(tmp, ignore_errors=True)
